@@ -62,13 +62,13 @@ Definition two32 : N := 4294967296%N.
 (* Addr.Unmap *)
 Definition unmap (a : addr) : addr :=
   match a with
-  | A6 x => if (x / two32 =? 65535)%N then A4 (x mod two32)%N else a
+  | A6 x => if (N.shiftr x 32 =? 65535)%N then A4 (N.land x 4294967295)%N else a
   | _ => a
   end.
 
-(* keep the top [bits] bits of a [w]-bit number *)
+(* keep the top [bits] bits of a [w]-bit number:  x / 2^(w-bits) * 2^(w-bits)  (LimiterProofs.mask_bits_spec) *)
 Definition mask_bits (w bits x : N) : N :=
-  let sh := (w - bits)%N in ((x / 2 ^ sh) * 2 ^ sh)%N.
+  let sh := (w - bits)%N in N.shiftl (N.shiftr x sh) sh.
 
 (* netip.PrefixFrom(addr, bits).Masked().Addr(): the zero Addr when bits is outside 0..BitLen *)
 Definition prefix_addr4 (bits : Z) (x : N) : addr :=
@@ -202,8 +202,10 @@ Definition has_gc (h : list lev) : bool := existsb (fun e => match e with EvGc _
 
 (* the executable statement of the window bound for one history (the spec oracle of kind `limiter`):
    scaled cost admitted for k in [t0,t1]  <  burst + rate*(t1 - t0) + one nanosecond of refill *)
+Definition bound_ok_ds (o : opts) (k : addr) (t0 t1 : Z) (h : list lev) (ds : list (option bool)) : bool :=
+  lim_admitted o k t0 t1 h ds * SCALE <=? o_burst o * SCALE + o_limit o * (t1 - t0) + (o_limit o - 1).
 Definition bound_ok (o : opts) (k : addr) (t0 t1 : Z) (h : list lev) : bool :=
-  lim_admitted o k t0 t1 h (lim_decisions o [] h) * SCALE <=? o_burst o * SCALE + o_limit o * (t1 - t0) + (o_limit o - 1).
+  bound_ok_ds o k t0 t1 h (lim_decisions o [] h).
 
 (* ------------------------------------------------------------------ admission at the listeners *)
 
